@@ -15,7 +15,7 @@ import sys
 import time
 
 VERIF = '/verif'
-EXTRA = {'C13c': ['C13', 'C14'], 'C15c': ['C15', 'C11'], 'C06d': ['C06', 'C03'], 'C14d': ['C14', 'C02']}
+EXTRA = {'C13c': ['C13', 'C14'], 'C15c': ['C15', 'C11'], 'C06d': ['C06', 'C03'], 'C14d': ['C14', 'C02'], 'C05k': ['C05', 'C19']}
 
 
 def sh(cmd, env=None, timeout=3600):
